@@ -297,7 +297,12 @@ func (ev *SpecEnv) ident(name string) (Val, types.Type) {
 		return v, t
 	}
 	if ev.fr != nil {
-		if nr, ok := ev.fr.Names[name]; ok {
+		nr, ok := ev.fr.Names[name]
+		if !ok && strings.Contains(name, "_") {
+			// compiler-generated names contain a dot (rangeint.iter): written with an underscore in specs
+			nr, ok = ev.fr.Names[strings.Replace(name, "_", ".", 1)]
+		}
+		if ok {
 			if nr.IsAddr {
 				return ev.ex.load(ev.st, nr.V, "spec"), nr.Typ
 			}
@@ -642,6 +647,16 @@ func (ev *SpecEnv) callExpr(x *ast.CallExpr) (Val, types.Type) {
 			return Scalar{IntC(0)}, nil
 		}
 		mem := ev.heapMem(sv.Region)
+		if ev.ex.Mode == ModeInt && sv.Len.IsConst() && sv.Len.Val.IsInt64() && sv.Len.Val.Int64() <= 64 {
+			// a slice of known small length: the value is written out (sum of byte * 256^position)
+			n := sv.Len.Val.Int64()
+			sum := IntC(0)
+			for i := int64(0); i < n; i++ {
+				w := new(big.Int).Lsh(big.NewInt(1), uint(8*(n-1-i)))
+				sum = IAdd(sum, IMul(Select(mem, ev.ex.idxAdd(sv.Off, ev.ex.idxConst(i))), IntBig(w)))
+			}
+			return Scalar{sum}, nil
+		}
 		ev.ex.Funs["0uf_beval"] = fmt.Sprintf("(declare-fun beval (%s Int Int) Int)", mem.S)
 		return Scalar{App("beval", IntSort, mem, sv.Off, sv.Len)}, nil
 	case "mhas", "mget":
